@@ -10,17 +10,22 @@ CUSTOM = {
     "P2": ({"p2-a": "{integer}", "p2-c": "{absolute-size}"}, {"integer": "p2i", "absolute-size": "p2s"}),
     "P3": ({"p3-b": "{mynew}", "p3-a": "{integer}"}, {"mynew": "p3n"}),
     "P4": ({"p4-a": "{integer}", "z-index": "p4z"}, {}),
+    "P5": ({"p5-a": "{uri}"}, {"uri": "p5u"}),                # shadows a TOKEN-level macro that the built-ins use too
     "P1x": ({"p1-a": "{integer}", "p1-b": "p1x"}, None),      # registered under the name P1, no macros argument at all
 }
-REALNAME = {"P1x": "P1"}
+# P3 is registered under a name that CONTAINS the names of P1 and P2 (a profile name given as a single string must be compared as a
+# whole, as the built-in 'CSS Fonts Module Level 3' / 'CSS Fonts Module Level 3 @font-face properties' pair requires)
+REALNAME = {"P1x": "P1", "P3": "P1 and P2 extended"}
 VARIANT = {}      # real name -> abstract id currently registered under it (per trace)
 # probes: (id, property, candidate literals).  The accepted subset identifies the macro version a property is compiled with.
 INT_LITS = ["7", "p1i", "p2i"]
 NEW_LITS = ["p1n", "p3n", "p1x"]
 ABS_LITS = ["xx-large", "p2s"]
+URI_LITS = ["url(x)", "p5u"]
 PROBES = [
     ("P1.a", "p1-a", INT_LITS), ("P1.b", "p1-b", NEW_LITS), ("P2.a", "p2-a", INT_LITS), ("P2.c", "p2-c", ABS_LITS),
     ("P3.b", "p3-b", NEW_LITS), ("P3.a", "p3-a", INT_LITS), ("P4.a", "p4-a", INT_LITS),
+    ("P5.a", "p5-a", URI_LITS), ("B.bg", "background-image", URI_LITS),
     ("B.z", "z-index", INT_LITS + ["p4z"]), ("B.fs", "font-size", ABS_LITS), ("B.color", "color", ["red", "p1i"]),
     ("none", "no-such-property", ["7", "red"]),
 ]
@@ -63,8 +68,21 @@ def project(reg):
                 vwp_ok = False
             if v:
                 acc.append(lit)
-                matching.append([pid, lit, bool(w[1])])
+                matching.append({"id": pid, "lit": lit, "m": bool(w[1])})
         versions.append({"id": pid, "accepted": acc})
+    # the profiles argument given explicitly: a single name (str) and a one-element list must answer alike
+    explicit = []
+    for q in names:
+        if q == "B":
+            continue
+        rq = REALNAME.get(q, q)
+        for pid, prop, lits in PROBES:
+            for lit in lits:
+                o1, a1 = outcome(lambda: reg.validateWithProfile(prop, lit, rq))
+                o2, a2 = outcome(lambda: reg.validateWithProfile(prop, lit, [rq]))
+                same = o1 == o2 and (o1 != "ok" or (bool(a1[0]), bool(a1[1]), sorted(a1[2])) == (bool(a2[0]), bool(a2[1]), sorted(a2[2])))
+                explicit.append({"q": q, "id": pid, "lit": lit, "valid": bool(a2[0]) if o2 == "ok" else False, "m": bool(a2[1]) if o2 == "ok" else False,
+                                 "same": same, "out": o2})
     known = sorted({p for _, p, _ in PROBES if p in reg.knownNames})
     byprof = []
     for n in names:
@@ -73,7 +91,7 @@ def project(reg):
             byprof.append({"p": n, "props": r if out == "ok" else [out]})
     d = reg._defaultProfiles
     return {"names": names, "nreal": len(reg.profiles), "versions": versions, "known": known, "byprofile": byprof,
-            "validateAgree": vwp_ok, "defaults": "none" if not d else (VARIANT.get(d[0], d[0]) if d[0] in CUSTOM else "B")}
+            "validateAgree": vwp_ok, "matching": matching, "explicit": explicit, "defaults": "none" if not d else (VARIANT.get(d[0], d[0]) if (d[0] in CUSTOM or d[0] in VARIANT) else "B")}
 
 
 def apply(reg, a):
@@ -114,7 +132,23 @@ def run_trace(item):
     VARIANT.clear()
     reg = profiles_mod.Profiles(log=cssutils.log)
     tr = {"id": item["id"], "init": project(reg), "steps": []}
-    for a in item["actions"]:
+    actions = list(item["actions"])
+    if item.get("detour") and actions:
+        # a detour that leaves the CONTENTS as they are - a macro-less profile is added and removed again - right before the last
+        # action: still a behaviour of the machine (two enabled actions), and whatever it leaves behind is history, not contents
+        names = set()
+        for a in actions[:-1]:
+            if a["op"] in ("add",):
+                names.add(a["p"])
+            elif a["op"] == "addbatch":
+                names.update(a["ps"])
+            elif a["op"] == "remove":
+                names.discard(a["p"])
+            elif a["op"] == "removeall":
+                names.clear()
+        if "P4" not in names:
+            actions = actions[:-1] + [{"op": "add", "p": "P4"}, {"op": "remove", "p": "P4"}] + actions[-1:]
+    for a in actions:
         out, ret = apply(reg, a)
         tr["steps"].append({"a": a, "out": out, "post": project(reg)})
     return tr
